@@ -242,6 +242,23 @@ int main(void)
 			in_lib = -1;
 			result(r < 0 ? "refused" : "ok");
 		}
+		else if (!strcmp(op, "tfiniset") && (drv_nw == 4 || drv_nw == 5)) {
+			/* the identifier is ended through the traits' fini and its storage is used again at once, without a new init:
+			 * mpt_identifier_set on what fini left behind */
+			uint8_t *dat; size_t dlen; int isnull; long len;
+			if (parse_slot(drv_w[2], &k) || parse_bytes(drv_w[3], &dat, &dlen, &isnull)) { puts("bad-op"); continue; }
+			len = (long) dlen;
+			if (drv_nw == 5 && parse_len(drv_w[4], &len)) { __real_free(dat); puts("bad-op"); continue; }
+			if ((isnull && (drv_nw != 5 || len < 0)) || (!isnull && len > (long) dlen) || len > 60000 || dlen > 60000) { __real_free(dat); puts("bad-op"); continue; }
+			uint8_t *blk = 0, *nm = isnull ? 0 : name_block(dat, dlen, drv_nw == 5, len, &blk);
+			in_lib = (int) k;
+			mpt_identifier_traits()->fini(slots[k].id);
+			void *r = mpt_identifier_set(slots[k].id, (char *) nm, (int) len);
+			in_lib = -1;
+			__real_free(blk);
+			__real_free(dat);
+			result(r ? "ok" : "refused");
+		}
 		else if (!strcmp(op, "tfini") && drv_nw == 3) {
 			/* traits fini, then release the storage */
 			if (parse_slot(drv_w[2], &k)) { puts("bad-op"); continue; }
